@@ -183,10 +183,12 @@ def gen_rule(rng, names, present=(), last=False):
     rule = [rand_case("MATCH", rng), pat]
     form = rng.randrange(4)
     if form in (1, 3):
-        rule += [rand_case("IN", rng), rng.choice(PREFIXES) if rng.random() > 0.02 else "src\\"]
+        # (sometimes a prefix spelled with the other separator, as a layout written on Windows has it: prefixes are
+        #  normalised, `sub\dir` means `sub/dir/`)
+        rule += [rand_case("IN", rng), rng.choice(PREFIXES) if rng.random() > 0.08 else rng.choice(["src\\", "sub\\dir", "dst\\"])]
     rule += [rand_case("WITH", rng), rand_case(rng.choice(["MATERIALS", "PRODUCTS"]), rng)]
     if form in (2, 3):
-        rule += [rand_case("IN", rng), rng.choice(PREFIXES)]
+        rule += [rand_case("IN", rng), rng.choice(PREFIXES) if rng.random() > 0.08 else rng.choice(["dst\\", "sub\\dir", "src\\"])]
     rule += [rand_case("FROM", rng), rng.choice(names + ["missing"])]
     return rule
 
@@ -295,8 +297,10 @@ def oracle_item_rules(case):
             return {"err": "FormatError"}
         if dt not in ("materials", "products"):
             return {"err": "FormatError"}
-        if "\\" in sp or "\\" in dp:
-            return None
+        if sp.endswith("\\") or dp.endswith("\\"):
+            return None      # (a trailing backslash becomes a doubled slash: a quirk outside the documented behaviour)
+        # a prefix written with the other separator means the same directory
+        sp, dp = sp.replace("\\", "/"), dp.replace("\\", "/")
         if dn not in links:
             continue
         dest = links[dn][dt]
@@ -529,6 +533,15 @@ CORPUS = [
                          "products": [["foo", [["sha256", "aa11"]]], ["new", [["sha256", "bb22"]]],
                                       ["src/a.py", [["sha256", "cc33"]]]]}],
                ["s1", {"materials": [], "products": [["dst/a.py", [["sha256", "cc33"]]]]}]]},
+    # prefixes spelled with the other separator (a layout written on Windows): they are normalised like any other
+    {"name": "item", "type": "materials", "odd": False,
+     "rules": [["MATCH", "*", "IN", "sub\\dir", "WITH", "PRODUCTS", "IN", "dst\\x", "FROM", "s1"], ["DISALLOW", "*"]],
+     "links": [["item", {"materials": [["sub/dir/foo", [["sha256", "aa11"]]]], "products": []}],
+               ["s1", {"materials": [], "products": [["dst/x/foo", [["sha256", "aa11"]]]]}]]},
+    {"name": "item", "type": "products", "odd": False,
+     "rules": [["MATCH", "foo", "IN", "sub\\dir", "WITH", "MATERIALS", "FROM", "s1"], ["REQUIRE", "sub/dir/foo"]],
+     "links": [["item", {"materials": [], "products": [["sub/dir/foo", [["sha256", "aa11"]]], ["bar", [["sha256", "bb22"]]]]}],
+               ["s1", {"materials": [["foo", [["sha256", "aa11"]]]], "products": []}]]},
     {"name": "item", "type": "materials", "odd": True,
      "rules": [["MATCH", "*", "IN", "src", "WITH", "PRODUCTS", "FROM", "item"]],
      "links": [["item", {"materials": [["src//q", [["sha256", "aa11"]]]], "products": []}]]},
